@@ -15,13 +15,49 @@ fn serve(dir: &str, port: &str) {
 }
 
 fn rrq(blk: usize) -> Vec<u8> {
+    rrq_opt(OptionType::BlockSize, blk)
+}
+
+fn rrq_opt(option: OptionType, value: usize) -> Vec<u8> {
     Packet::Rrq {
         filename: "f.bin".into(),
         mode: "octet".into(),
-        options: vec![TransferOption { option: OptionType::BlockSize, value: blk }],
+        options: vec![TransferOption { option, value }],
     }
     .serialize()
     .unwrap()
+}
+
+/// D9: a timeout option the server cannot honour (2^64-1 s) is acknowledged; the transfer then dies in
+/// `self.timeout + TIMEOUT_BUFFER` (overflow panic in the worker thread) instead of sending DATA 1.
+fn d9(server: &str) -> bool {
+    let c = UdpSocket::bind("127.0.0.1:0").unwrap();
+    c.set_read_timeout(Some(Duration::from_millis(1500))).unwrap();
+    let huge = usize::MAX;
+    println!("client -> RRQ f.bin timeout={huge}");
+    c.send_to(&rrq_opt(OptionType::Timeout, huge), server).unwrap();
+    let mut buf = [0u8; 2048];
+    let mut acknowledged = false;
+    let mut got_data = false;
+    if let Ok((n, from)) = c.recv_from(&mut buf) {
+        let p = Packet::deserialize(&buf[..n]);
+        println!("server -> {:?}", p);
+        if let Ok(Packet::Oack(_)) = p {
+            acknowledged = true;
+            println!("client -> ACK 0");
+            c.send_to(&Packet::Ack(0).serialize().unwrap(), from).unwrap();
+            if let Ok((n, _)) = c.recv_from(&mut buf) {
+                println!("server -> {:?}", Packet::deserialize(&buf[..n]).map(|p| verif_replay::fmt_packet(&p)));
+                got_data = true;
+            } else {
+                println!("server -> (nothing: the transfer died)");
+            }
+        }
+    } else {
+        println!("server -> (no reply)");
+    }
+    println!("timeout 2^64-1 acknowledged: {acknowledged}; DATA 1 followed: {got_data}");
+    acknowledged && !got_data
 }
 
 fn main() {
@@ -45,6 +81,13 @@ fn main() {
     let c = UdpSocket::bind("127.0.0.1:0").unwrap();
     c.set_read_timeout(Some(Duration::from_millis(700))).unwrap();
     let server = format!("127.0.0.1:{port}");
+    if a.len() > 1 && a[1] == "d9" {
+        let m = d9(&server);
+        let _ = child.kill();
+        let _ = child.wait();
+        println!("== D9 {}", if m { "MANIFESTS" } else { "does not manifest" });
+        std::process::exit(if m { 1 } else { 0 });
+    }
     let big: usize = 1 << 62;
     println!("client -> RRQ f.bin blksize={big}");
     c.send_to(&rrq(big), &server).unwrap();
